@@ -6,6 +6,7 @@ CONSTANTS
   MailCount <- C_MailCount
   Defects <- C_Defects
   Bytecode <- C_Bytecode
+  Buffered <- C_Buffered
   OpsBound <- C_OpsBound
   Frames <- C_Frames
   Sels <- C_Sels
